@@ -69,8 +69,8 @@ def units(tier):
     for tname, bits in (("c_double_type", 64),) + ((("c_float_type", 32),) if tier != "quick" else ()):
         t = _pt(tname)
         u = CUnit("CMath.ModFloat[%s]" % tname, {"C06": None, "C03": None}, "__Pyx_mod_%s" % t.specialization_name(), _tu(tname),
-                  requires=[("a, b finite, b != 0 (a zero divisor raises ZeroDivisionError before the helper is called)",
-                             lambda e: And(_finite(e.a), _finite(e.b), Not(z3.fpIsZero(e.b)))),
+                  requires=[("b != 0 (a zero divisor raises ZeroDivisionError before the helper is called); infinities and NaNs included",
+                             lambda e: Not(z3.fpIsZero(e.b))),
                             ("b_is_constant is 0/1", lambda e: Or(e.b_is_constant == 0, e.b_is_constant == 1))],
                   # one postcondition, stated as three exhaustive cases on fmod's result (zero / sign differs from b's / same sign):
                   # the single equality took z3 40 s (and went `unknown` on a loaded machine), the cases take 4 s together
@@ -100,7 +100,8 @@ def _search(unit, bits, model=None):
     vals = [0.0, -0.0, 1.0, -1.0, 2.5, -2.5, 3.0, -3.0, 0.5, -0.5, 7.25, -7.25, 1e300, -1e300, 5e-324, -5e-324, 1e-5, -1e-5]
     if model and "a" in model and "b" in model:
         vals = [float(model["a"]), float(model["b"])] + vals
-    cases = [(a, b) for a in vals for b in vals if b != 0 and not (math.isnan(b) or math.isinf(b) or math.isnan(a) or math.isinf(a))]
+    vals += [math.inf, -math.inf, math.nan]
+    cases = [(a, b) for a in vals for b in vals if b != 0]
     if bits == 32:
         f32 = lambda v: struct.unpack("f", struct.pack("f", v))[0]  # noqa: E731
         cases = [(f32(a), f32(b)) for a, b in cases if abs(a) < 1e38 and abs(b) < 1e38 and f32(b) != 0]
